@@ -41,6 +41,8 @@ structure Runtime where
   /-- `run()` hands the protocol `ConnectionState(self.state.copy())`: every connection works on its own copy of the
       worker's lifespan state -/
   copiesState : Bool := true
+  /-- `MAX_RECV`: the most one read returns; how a burst of client bytes is cut into `protocol.handle(RawData)` calls -/
+  maxRecv : Nat := 65536
 deriving DecidableEq, Repr
 
 /-- what `protocol.handle` is called with -/
@@ -155,6 +157,6 @@ def St.obs (s : St) : Obs :=
 def Compatible (a b : Runtime) : Bool :=
   a.readEndStopsIdle == b.readEndStopsIdle && a.eofAlwaysPassedOn == b.eofAlwaysPassedOn &&
   a.writeErrorClosesProtocol == b.writeErrorClosesProtocol && a.timerTellsProtocolFirst == b.timerTellsProtocolFirst &&
-  a.copiesState == b.copiesState
+  a.copiesState == b.copiesState && a.maxRecv == b.maxRecv
 
 end HC.Conn.Shell
